@@ -661,7 +661,7 @@ func ruleC09Pending(c *Ctx) {
 		})
 		if decInstr != nil {
 			allInstrs(rs.Listener, func(in ssa.Instruction) {
-				if call, ok := in.(*ssa.Call); ok && mf[call.Call.StaticCallee()] && instrDominates(decInstr, call) {
+				if c.isFinalizeStep(in) && instrDominates(decInstr, in) {
 					okAfter = true
 				}
 			})
@@ -674,13 +674,13 @@ func ruleC09Pending(c *Ctx) {
 		// the size-affecting updates in the listener precede the maybe-finalize call (size is final when published)
 		e := c.effects()
 		allInstrs(rs.Listener, func(in ssa.Instruction) {
-			call, ok := in.(*ssa.Call)
-			if !ok || !mf[call.Call.StaticCallee()] {
+			if !c.isFinalizeStep(in) {
 				return
 			}
+			call := in
 			allInstrs(rs.Listener, func(in2 ssa.Instruction) {
-				if in2 == ssa.Instruction(call) {
-					return
+				if in2 == call || (in2.Block() != call.Block() && call.Block().Dominates(in2.Block())) {
+					return // the step itself and what it guards
 				}
 				ec := c.effectCounter(func(ed *effEdge) bool { return ed.Counter }, false)
 				if r := ec.instr(in2); r.Max > 0 || (e.BySite[in2] != nil && e.BySite[in2].Counter) {
@@ -693,7 +693,7 @@ func ruleC09Pending(c *Ctx) {
 		// initialisation function ends in maybe-finalize on all non-error paths
 		init := rs.Fn
 		ecMF := c.newEventCounter(func(in ssa.Instruction) int {
-			if call, ok := in.(*ssa.Call); ok && mf[call.Call.StaticCallee()] {
+			if c.isFinalizeStep(in) {
 				return 1
 			}
 			return 0
@@ -701,7 +701,7 @@ func ruleC09Pending(c *Ctx) {
 		c.checkEndsInFinalize(init, ecMF, mf, key)
 	}
 	// maybe-finalize: finalizer call then listener notification, both under pending==0
-	for fn := range c.maybeFinalizeFns() {
+	for fn := range c.finalizeHosts() {
 		var finCall ssa.Instruction
 		fins := c.finalizers()
 		allInstrs(fn, func(in ssa.Instruction) {
@@ -737,8 +737,8 @@ func ruleC09Pending(c *Ctx) {
 	}
 }
 
-// maybeFinalizeFns: functions containing a pending==0-guarded finalizer call.
-func (c *Ctx) maybeFinalizeFns() map[*ssa.Function]bool {
+// finalizeHosts: functions containing a pending==0-guarded finalizer call.
+func (c *Ctx) finalizeHosts() map[*ssa.Function]bool {
 	out := map[*ssa.Function]bool{}
 	for _, fin := range c.finalizers() {
 		for _, ci := range c.Callers[fin] {
@@ -748,6 +748,76 @@ func (c *Ctx) maybeFinalizeFns() map[*ssa.Function]bool {
 		}
 	}
 	return out
+}
+
+// maybeFinalizeFns: the functions event counting does not descend into
+// because they are the finalisation step common to both delivery orders:
+// dedicated maybe-finalize functions (hosts that are neither a record
+// initialiser nor a listener) and the finalizers themselves (reached only
+// through a pending==0 guard, wherever that guard is written).
+func (c *Ctx) maybeFinalizeFns() map[*ssa.Function]bool {
+	if v, ok := c.memo["mffns"]; ok {
+		return v.(map[*ssa.Function]bool)
+	}
+	out := map[*ssa.Function]bool{}
+	c.memo["mffns"] = out
+	inline := map[*ssa.Function]bool{}
+	for _, rs := range c.requireSites() {
+		inline[rs.Fn] = true
+		if rs.Listener != nil {
+			inline[rs.Listener] = true
+		}
+	}
+	for h := range c.finalizeHosts() {
+		if !inline[h] {
+			out[h] = true
+		}
+	}
+	for _, fin := range c.finalizers() {
+		out[fin] = true
+	}
+	return out
+}
+
+// isFinalizeStep: in is the finalisation step — a call of a maybe-finalize
+// function, or the `if pending == 0` test that guards an inline finalizer call.
+func (c *Ctx) isFinalizeStep(in ssa.Instruction) bool {
+	if call, ok := in.(*ssa.Call); ok {
+		cal := call.Call.StaticCallee()
+		if cal == nil {
+			return false
+		}
+		for _, fin := range c.finalizers() {
+			if cal == fin {
+				return false // the finalizer itself is not the step; its guard is
+			}
+		}
+		return c.maybeFinalizeFns()[cal]
+	}
+	iff, ok := in.(*ssa.If)
+	if !ok {
+		return false
+	}
+	b := iff.Block()
+	for _, fin := range c.finalizers() {
+		for _, ci := range c.Callers[fin] {
+			if ci.Parent() != b.Parent() || !c.isPendingZeroGuarded(ci.Block()) {
+				continue
+			}
+			// is this If the guard of that call?
+			for _, f := range factsAt(ci.Block()) {
+				if f.If == iff {
+					cond, truth := normCond(f.Cond, f.Truth)
+					if cmp, ok := isCmp(cond, token.EQL, token.NEQ); ok && (cmp.Op == token.EQL) == truth {
+						if n, isZero := constInt(cmp.Y); isZero && n == 0 {
+							return true
+						}
+					}
+				}
+			}
+		}
+	}
+	return false
 }
 
 func (c *Ctx) rangeOverFieldType(l *loop, hint string) bool {
@@ -864,23 +934,27 @@ func finalOnly(c *Ctx, rule string, only map[string]bool, floor int) {
 			continue
 		}
 		n++
-		f := ed.Fn
-		var at ssa.Instruction = ed.Site
-		guarded := false
 		var chain []string
-		for depth := 0; depth < 8 && !guarded; depth++ {
+		// every caller chain must pass a pending==0 guard
+		var allGuarded func(f *ssa.Function, at ssa.Instruction, depth int) bool
+		allGuarded = func(f *ssa.Function, at ssa.Instruction, depth int) bool {
 			chain = append(chain, fnName(f))
 			if c.isPendingZeroGuarded(at.Block()) {
-				guarded = true
-				break
+				return true
 			}
 			callers := c.Callers[f]
-			if len(callers) != 1 {
-				break
+			if len(callers) == 0 || depth >= 8 {
+				return false
 			}
-			at = callers[0]
-			f = at.Parent()
+			for _, cal := range callers {
+				if !allGuarded(cal.Parent(), cal, depth+1) {
+					return false
+				}
+			}
+			return true
 		}
+		guarded := allGuarded(ed.Fn, ed.Site, 0)
+		chain = uniq(chain)
 		if guarded {
 			c.hold(rule, ed.Target, posOf(ed.Site), fmt.Sprintf("%s is folded in only behind the pending==0 guard (%s)", dep, strings.Join(chain, " <- ")))
 		} else {
